@@ -305,7 +305,7 @@ func (g *c14Gen) world(i int) *c14WorldSpec {
 		}
 	}
 	spec := &c14WorldSpec{Ctl: ctl, IgnoreStatus: r.Bool()}
-	np := r.Intn(4)
+	np := []int{0, 1, 2, 2, 3, 3, 4, 4}[r.Intn(8)]
 	slots := [][2]string{{"ns1", "p1"}, {"ns1", "p2"}, {"ns2", "p1"}, {"ns2", "p3"}}
 	if !ctl.ParentNamespaced {
 		slots = [][2]string{{"", "p1"}, {"", "p2"}, {"", "p3"}}
